@@ -9,7 +9,7 @@ from ..lang import CMP_OPS
 PROPERTY = "C15"
 LEVEL = "exploration"
 TIMEOUT = 300
-BUDGET = {"quick": 150, "thorough": 1500}
+BUDGET = {"quick": 600, "thorough": 3600}
 REQUIRED_MONITORS = ["inline_calls"]
 RULE = ("Programs with functions (int / Signal / Entity parameters, int<->Signal coercion at call sites, locals "
         "shadowing caller names, local memories and places, nested calls up to depth 4, calls in loops, "
